@@ -75,7 +75,7 @@ def judge(res, results):
         res.count('spec ' + spec[0] + (' ' + spec[1] if spec[0] == 'unspecified' else ''))
         if spec[0] == 'hit':
             rel, content = spec[1], spec[2]
-            variant = spec[3] if len(spec) > 3 else ('fragment-qmark' if K.fragment_has_qmark(tb) else 'cwd-refused' if getattr(c.tree, 'cwd_refused', False) else None)
+            variant = 'cwd-refused' if getattr(c.tree, 'cwd_refused', False) else spec[3] if len(spec) > 3 else ('fragment-qmark' if K.fragment_has_qmark(tb) else 'cwd-refused' if getattr(c.tree, 'cwd_refused', False) else None)
             if resp['status'] != 200:
                 res.fail('lookup-miss' + (':' + variant if variant else ''), c.line[:300], f'status {resp["status"]}', None, f'C02: GET {c.target!r} should serve {rel!r} ({len(content)} bytes) but was answered {resp["status"]}')
                 continue
